@@ -1,5 +1,6 @@
 //! `nvh` — verification harness for narwhal: translator + correspondence suites.
 //! Usage: nvh <suite> --seed N --cases N --out FILE [--steps N] [--only CASE]
+mod client_suite;
 mod oracle;
 mod pool_suite;
 mod reader_suite;
@@ -155,6 +156,16 @@ fn main() {
         out.seg_dependent.len()
       ));
       std::fs::write(&a.out, t).expect("write transcript");
+    },
+    "client" => {
+      let rt = tokio::runtime::Builder::new_current_thread().enable_all().start_paused(true).build().unwrap();
+      let (seed, cases) = (a.seed, a.cases);
+      let t = rt.block_on(async move { client_suite::run_suite(seed, cases).await });
+      std::fs::write(&a.out, t).expect("write transcript");
+    },
+    "client-debug" => {
+      let rt = tokio::runtime::Builder::new_current_thread().enable_all().start_paused(true).build().unwrap();
+      rt.block_on(async move { client_suite::debug_case().await });
     },
     "pool" => {
       let t = pool_suite::run_suite(a.seed, a.cases);
